@@ -24,6 +24,7 @@ ASSUMPTIONS_ENGINE = [
     "A7 exceptions arise only from the modelled sources (raise, KeyError, IndexError, ZeroDivisionError, ValueError of int()/unpacking, AttributeError on stub namespaces)",
     "A8 // and % encoded with floor semantics for both signs",
     "A9 builtins and str/dict/list methods follow their documentation (models in pyvc/stubs.py)",
+    "A10 ranges of quantification: a real variable is quantified over [its lower bound, +inf) (an upper bound written in a contract only limits the native samples, unless box=True); integer variables keep both bounds (they are shape parameters: coefficients, charges, counts) and string lengths their caps",
     "verifier itself (pyvc AST interpreter + VC generation, ~3 kLOC python) and z3/cvc5 are trusted; guarded by the engine-vs-CPython differential and the mutant self-test",
 ]
 
